@@ -277,6 +277,24 @@ def harness_f(case, oname):
     return f, offs, o
 
 
+def steps_of(case):
+    st = case['step']
+    return st if isinstance(st, list) else [st if st is not None else default_step(case['method'])]
+
+
+def harness_eval_roundoff(case, oname):
+    """Round-off bound of one evaluation of output `oname` at ANY point the quotients visit, one value per row:
+    R.eval_roundoff of the operand magnitudes S = sum_i |A_oi| |g_i(x_i)|.  All g are positive and increasing on
+    the generated domain (x in [0.5, 1.5]), so S at x + hmax bounds S at every perturbed point."""
+    hmax = max(steps_of(case)) if case['method'] == 'fd' else 0.0
+    S, n = 0.0, 0
+    for i in case['ins']:
+        A = np.array(case['blocks']['%s,%s' % (oname, i['name'])]['A'])
+        S = S + np.abs(A).dot(np.abs(R.G[i['g']][0](np.array(case['x0'][i['name']], dtype=float) + hmax)))
+        n += i['size']
+    return R.eval_roundoff(S, n)[:, None]
+
+
 # ----------------------------------------------------------------------------------------------
 # judging
 # ----------------------------------------------------------------------------------------------
@@ -300,9 +318,10 @@ class Reporter(object):
         self.any = True
 
 
-def judge_block(acc, case, key_prefix, entry, Jkey, W, quot_of_step, P, fmax, atol, rtol, which, rep,
+def judge_block(acc, case, key_prefix, entry, Jkey, W, quot_of_step, P, everr, atol, rtol, which, rep,
                 scale_note=''):
-    """Common comparison of one (of, wrt) entry.  quot_of_step(h) -> full dense reference quotient.
+    """Common comparison of one (of, wrt) entry.  quot_of_step(h) -> full dense reference quotient;
+    everr = round-off bound of ONE function evaluation, per row (R.eval_roundoff), broadcastable to the block.
     Returns True if something was reported."""
     bad = False
 
@@ -352,12 +371,12 @@ def judge_block(acc, case, key_prefix, entry, Jkey, W, quot_of_step, P, fmax, at
             viol('approx-block-shape', 'reported %s expected %s' % (Jd.shape, ref.shape))
             continue
         if method == 'fd':
-            tol = R.fd_tolerance(fmax, h, form, ref)
+            tol = R.fd_tolerance(everr, h, form, ref)
         else:
             tol = 1e-12 * (np.abs(ref) + np.abs(ref).max() + 1e-300)
         if np.any(np.abs(Jd - ref) > tol) and multi and k < len(steplist) - 1 and \
                 not np.any(np.abs(Jd - quot_of_step(steplist[-1]) * P) >
-                           (R.fd_tolerance(fmax, steplist[-1], form, ref) if method == 'fd' else tol)):
+                           (R.fd_tolerance(everr, steplist[-1], form, ref) if method == 'fd' else tol)):
             viol('multi-step:approx-block-holds-last-steps-quotient',
                  'steps %s: block reported for step %g equals the quotient of the LAST step %g, e.g. entry '
                  '(0, 0): reported %r, quotient for its own step %r' %
@@ -457,7 +476,7 @@ def run_partials(case, acc):
         for o in case['outs']:
             f, offs, nx = harness_f(case, o['name'])
             xf = np.concatenate([np.array(case['x0'][i['name']], dtype=float) for i in case['ins']])
-            fmax = float(np.abs(f(xf)).max())
+            everr = harness_eval_roundoff(case, o['name'])
             cache = {}
 
             def quot(h, f=f, xf=xf, cache=cache):
@@ -484,7 +503,7 @@ def run_partials(case, acc):
                 if W is None:
                     rep.viol('harness-error:compute_partials-not-logged', key)
                     continue
-                judge_block(acc, case, st, entry, 'J_fwd', W, lambda h, q=quot, sl=sl: q(h)[:, sl], P, fmax,
+                judge_block(acc, case, st, entry, 'J_fwd', W, lambda h, q=quot, sl=sl: q(h)[:, sl], P, everr,
                             case['abs_err_tol'], case['rel_err_tol'], 'forward', rep)
                 # ---- uncovered nonzeros (first step's quotient; all steps see the same dependency set)
                 h0 = (case['step'][0] if isinstance(case['step'], list) else case['step']) or \
@@ -655,7 +674,16 @@ def run_totals(case, acc):
 
         def F(x):
             return B.dot(g2(A.dot(g(x))))
-        fmax = float(np.abs(F(x0)).max()) * float(S.max())
+        # round-off of one evaluation of F, per row (first order in U; see R.eval_roundoff): the inner product
+        # y = A g(x) is off by e1; that error is carried through g2 and B (|B| |g2'(y)| e1) and the outer inner
+        # product adds its own round-off on its operand magnitudes |B| |g2(y)|.  All magnitudes are taken at
+        # |.| + the largest displacement any perturbed point can have, g, g', g2, g2' being increasing in |.|.
+        hmax = max(steps_of(case)) if case['method'] == 'fd' else 0.0
+        e1 = R.eval_roundoff(np.abs(A).dot(np.abs(g(x0 + hmax))), n)
+        gpmax = np.max(np.abs([gp(x0 - hmax), gp(x0), gp(x0 + hmax)]), axis=0)    # g' is monotone on the domain
+        ybound = np.abs(A.dot(g(x0))) + np.abs(A).dot(gpmax) * hmax + e1
+        e2 = np.abs(B).dot(np.abs(g2p(ybound)) * e1) + R.eval_roundoff(np.abs(B).dot(np.abs(g2(ybound))), r)
+        everr = e2[:, None] * S
         cache = {}
 
         def quot(h):
@@ -669,7 +697,7 @@ def run_totals(case, acc):
         Jkey = 'J_fwd' if case['mode'] == 'fwd' else 'J_rev'
         which = 'forward' if case['mode'] == 'fwd' else 'reverse'
         rep = Reporter(acc, case)
-        bad = judge_block(acc, case, 'totals', entry, Jkey, Wtot * S, quot, np.ones((q, n), bool), fmax,
+        bad = judge_block(acc, case, 'totals', entry, Jkey, Wtot * S, quot, np.ones((q, n), bool), everr,
                           case['abs_err_tol'], case['rel_err_tol'], which, rep, scale_note=note)
         if stream is not None:
             acc.count('obs:text-report')
